@@ -104,6 +104,20 @@ func factsAtDepth(in ssa.Instruction, depth int, seen map[*ssa.Function]bool) []
 			return out
 		}
 		fs := factsAtDepth(e.Site, depth+1, seen)
+		// a local fact about a boolean parameter is a fact about the argument
+		// at this call site (setModTime(f, st, isSymlink) with
+		// isSymlink := mode&S_IFMT == S_IFLNK)
+		for _, lf := range out {
+			prm, isP := lf.Cond.(*ssa.Parameter)
+			if !isP || prm.Parent() != fn {
+				continue
+			}
+			for i, pp := range fn.Params {
+				if pp == prm && i < len(c.Common().Args) {
+					fs = append(fs, expandFacts([]Fact{{Cond: c.Common().Args[i], Val: lf.Val, If: lf.If}})...)
+				}
+			}
+		}
 		if n == 0 {
 			inherited = fs
 		} else {
